@@ -65,8 +65,27 @@ func fakeCreator(_ fs.FileSystem, root string, _ common.Position, _ *logger.Logg
 	return &fakeTable{root: root}, nil
 }
 
-func (f *fakeTable) Close() error    { f.closed.Store(true); return nil }
-func (f *fakeTable) Collect(Metrics) {}
+func (f *fakeTable) Close() error { f.closed.Store(true); return nil }
+
+// collectGate parks a metrics scrape inside the Collect call of the shard tables below the given directory prefix.
+type collectGate struct {
+	prefix  string
+	entered chan *fakeTable
+	release chan struct{}
+	once    sync.Once
+}
+
+var collectGateP atomic.Pointer[collectGate]
+
+func (f *fakeTable) Collect(Metrics) {
+	if g := collectGateP.Load(); g != nil && strings.HasPrefix(f.root, g.prefix) {
+		parked := false
+		g.once.Do(func() { parked = true; g.entered <- f })
+		if parked {
+			<-g.release
+		}
+	}
+}
 func (f *fakeTable) put(k, v string) error {
 	if f.closed.Load() {
 		return fmt.Errorf("write to a closed table %s", f.root)
@@ -1291,12 +1310,13 @@ func TestVerifC06(t *testing.T) {
 }
 
 func TestVerifC07(t *testing.T) {
-	p := l2Profile{kinds: []string{"create", "create", "create", "select", "select", "retention", "retention", "forced", "advance", "advance", "hold", "release", "ttl", "reopen", "peek"}, maxOps: 20,
+	p := l2Profile{kinds: []string{"create", "create", "create", "select", "select", "retention", "retention", "forced", "advance", "advance", "hold", "release", "ttl", "reopen", "peek", "update"}, maxOps: 20,
 		ttl: []int{1, 1, 2, 3}, legacy: false, zones: []string{"UTC", "Asia/Shanghai", "America/New_York"}}
 	verifkit.Run(t, verifkit.Spec[sCase]{
 		Property: "C07", Unit: "storage_l2", CrashReplay: true,
 		Rule: "short TTLs (1-3 days) with hour/day intervals, 1..20 operations create / select / hold / release / advance clock (minutes to a week) / " +
-			"scheduled retention run (now = clock +- skew) / forced oldest-segment cleanup against the real storage layer with a mock clock; oracle: a " +
+			"scheduled retention run (now = clock +- skew) / forced oldest-segment cleanup / run-time change of the TTL and of the segment interval (existing segments keep their span, so " +
+			"segments longer or shorter than the current interval exist) / restart against the real storage layer with a mock clock; oracle: a " +
 			"retention run removes exactly the segments whose end <= now - TTL and no other; forced cleanup removes exactly the oldest segment iff more " +
 			"than one exists; a segment whose end <= clock - TTL is not returned by select even before deletion while every other overlapping segment is, " +
 			"with its rows; held segments keep their directory until released; non-trivial = a retention run or select with a segment within one interval " +
@@ -1315,6 +1335,7 @@ func TestVerifC07(t *testing.T) {
 			x.LabelIf(st.deleteWhileHeld, "delete while held")
 			x.LabelIf(st.retentions > 0, "retention run")
 			x.LabelIf(st.ttlUpdates > 0, "TTL changed at run time")
+			x.LabelIf(st.updates > 0 && st.retentions > 0, "interval changed at run time and a retention run")
 			if st.nearExpiry || st.hiddenBeforeDelete {
 				x.NonTrivial()
 			}
